@@ -61,9 +61,13 @@ class GenLoop(LoopSpec):
         self.data, self.off, self.k, self.off_is_target = data, off, k, off_is_target
 
     def invariant(self, I, fr):
-        if self.off_is_target:
-            # the offset is the loop variable itself (`for off in range(0, n, k)`): nothing is carried between iterations;
-            # what the i-th fragment is, is stated on the yielded value
+        g = I.ghost
+        if "off_carried" not in g:
+            # first evaluation on a path = loop entry: is the offset a variable that lives across iterations?
+            g["off_carried"] = (not self.off_is_target) and self.off in fr.locals
+        if not g["off_carried"]:
+            # the offset is the loop variable itself (`for off in range(0, n, k)`) or is computed afresh in every iteration
+            # (`off = i * k`): nothing is carried between iterations; what the i-th fragment is, is stated on the yielded value
             return True
         i = I._num(fr.locals["__idx0"], "int")
         return I._num(fr.locals[self.off], "int") == i * I._num(fr.locals[self.k], "int")
